@@ -45,6 +45,28 @@ def teardown_races(rng, n):
     return out
 
 
+def graceful_waits(rng, n):
+    """directed family: the body has ended and the block waits for its children when one of them is cancelled individually
+    (by a sibling, by an outside activity, several at once): the block keeps waiting for the others and is left normally
+    when the last one has finished"""
+    out = []
+    for _ in range(n):
+        k = rng.choice([2, 3, 4])
+        durs = [rng.choice([3, 5, 8]) for _ in range(k)]
+        body = [['do', 1, 1 + i, ['now'], False, [['await', ['delay', durs[i]]], ['log', 10 + i]]] for i in range(k)]
+        victims = rng.sample(range(k), rng.choice([1, 1, 2]) if k > 2 else 1)
+        tc = rng.choice([1, 2])
+        killer = [['await', ['delay', tc]]] + [['cancel', 1 + v, 5] for v in victims] + [['log', 30]]
+        if rng.random() < 0.5:
+            body.append(['do', 1, 9, ['now'], False, killer])
+            roots = [[['scope', 1, body + [['log', 1]]], ['log', 2]]]
+        else:
+            roots = [[['scope', 1, body + [['log', 1]]], ['log', 2]], killer]
+        out.append(('graceful-waits', dict(start=0, till=None, roots=roots, nflags=1, tracked=[0], nlocks=1, nqueues=1,
+                                           nchans=1, res=[])))
+    return out
+
+
 def awaitable_children(ctx, n):
     """directed family on the direct API (the scenario language only spawns coroutines): children that are bare
     awaitables - `scope.do(time + 20)`, `scope.do(eternity)`, `scope.do(flag)`, a comparison - in plain and until scopes
@@ -150,6 +172,8 @@ def awaitable_children(ctx, n):
 def run(ctx):
     awaitable_children(ctx, ctx.n(60, 1200))
     machine_prop.run(ctx, FAMILIES, MONITORS, extra_scenarios=teardown_races(ctx.rng, ctx.n(40, 800)))
+    # a block that is waiting for its children ends as the text says (normally): what it raises is C05's rule
+    machine_prop.run(ctx, [], MONITORS + [machine_prop.unclassified('C05')], extra_scenarios=graceful_waits(ctx.rng, ctx.n(30, 500)))
 
 
 def search(ctx):
